@@ -459,7 +459,7 @@ def at_limit_family(tier):
 PROG_DEFAULT = {"@N": "ap", "@V": "1.2"}      # program name / version unless a step's environment sets @N / @V
 
 
-def record(ctx, exe, scripts, tag="rec"):
+def record(ctx, exe, scripts, tag="rec", keyprefix=""):
     """Runs histories [(env, text), ...] on the implementation in record mode.  Returns (events, index, texts, nrecorded)."""
     keytok = tok([b(k) for k in sorted(TKEYS)])
     texts = []
@@ -476,7 +476,7 @@ def record(ctx, exe, scripts, tag="rec"):
         bad.add(f.sid)
         env, t = scripts[f.sid - 1][min(f.step, len(scripts[f.sid - 1]) - 1)]
         d = re.sub(r"\d+", "N", f.got) if f.kind == "inv" else f.sig
-        ctx.report("trace-recording expand [%s] %s/%s" % (kinds(b(t), env), f.kind, d),
+        ctx.report("%strace-recording expand [%s] %s/%s" % (keyprefix, kinds(b(t), env), f.kind, d),
                    "recording a random text failed: %r; input %r env %r" % (f, t[:200], env),
                    {"variant": "pass-aa", "harness_args": ["aa", keytok], "script_text": texts[f.sid - 1], "failure": repr(f), "detail": f.detail})
     by = {}
@@ -492,7 +492,7 @@ def record(ctx, exe, scripts, tag="rec"):
         for step, (env, t) in enumerate(hist):
             ret, state = by[sid][step]
             if ret == "IMPURE":
-                ctx.report("trace-recording expand [%s] impure" % kinds(b(t), env),
+                ctx.report("%strace-recording expand [%s] impure" % (keyprefix, kinds(b(t), env)),
                            "the result differs between the two stack/heap fill patterns; input %r env %r" % (t[:200], env),
                            {"variant": "pass-aa", "harness_args": ["aa", keytok], "script_text": texts[sid - 1]})
                 break
@@ -503,7 +503,7 @@ def record(ctx, exe, scripts, tag="rec"):
                            "prog": [b(prog["@N"]), b(prog["@V"])], "input": b(t), "isnull": isnull,
                            "got": [] if isnull else untok(ret), "store": untok(state)})
             index.append((sid, step))
-    return events, index, texts, len(by) - len(bad)
+    return events, index, texts, len([sid for sid in by if sid not in bad])
 
 
 def validate(ctx, events, tag="c10"):
@@ -615,6 +615,13 @@ def byte_family(tier):
     return out
 
 
+def deep_safety_family(tier):
+    """Nesting depths TLC cannot evaluate in reasonable time (every frame of the model carries its text): executed for memory
+    safety, termination and purity only; the value is not compared."""
+    ds = [400, 1000] if tier == "quick" else [400, 700, 1000, 1500, 2200]
+    return [[([], nest(d, "w%d" % d))] for d in ds] + [[([], nest(400, "x", "%version("))]]
+
+
 def trace_validation(ctx, exe):
     rnd = random.Random(ctx.seed + 10)
     nscripts, nlong = (260, 8) if ctx.tier == "quick" else (3000, 40)
@@ -668,6 +675,10 @@ def trace_validation(ctx, exe):
                        "the same text in the same environment and store gives %r before and %r after a prelude of deep/refused/failed expansions (%s)" % (
                            text_of(a["got"])[:80], "NULL" if z["isnull"] else text_of(z["got"])[:80], [x[:24] for _, x in scripts[sid - 1][1:-1]]),
                        {"variant": "pass-aa", "history": [[list(map(list, env_)), t_] for env_, t_ in scripts[sid - 1]], "step": len(ks) - 1})
+    deep = deep_safety_family(ctx.tier)
+    ev2, _, _, nrec2 = record(ctx, exe, deep, tag="deep", keyprefix="deep-nesting(>=400) ")
+    ctx.cov["deep_nesting_safety_only"] = {"histories": len(deep), "completed": nrec2,
+                                           "results_not_null": sum(1 for e in ev2 if not e["isnull"])}
     ctx.add("purity_across_calls_pairs", ncmp)
     ctx.cov["trace_families"] = fams
     ctx.add("trace_events_validated", len(verdicts))
@@ -720,6 +731,11 @@ def replay(ctx, path):
             for v in verdicts:
                 print("event %d: %s%s" % (v["l"], "accepted" if v["ok"] else "REJECTED", "" if v["claimed"] else " (value not claimed: %s)" % v["why"]))
                 bad += 0 if v["ok"] else 1
+            if len(events) == len(hist) > 1 and hist[0] == hist[-1]:
+                a, z = events[0], events[-1]
+                same = (a["isnull"], a["got"]) == (z["isnull"], z["got"])
+                print("purity across calls (first and last event are the same text): %s" % ("same result" if same else "DIFFERENT results"))
+                bad += 0 if same else 1
         print("REPRODUCED" if bad else "not reproduced: the history is accepted")
         return 1 if bad else 0
     env = {"ASAN_OPTIONS": asan_opts(170 if (rp.get("variant") or "pass-aa") == "pass-aa" else 85)}
